@@ -261,7 +261,8 @@ theorem C03_nested_tiff_exact (tb : Tables) (F : Bytes) (buffered : Bool) (h : H
       (if buffered then bufioSize else scratchSize) (extent F))
     (hrootW : ∀ x, IsEntry F { off := 0, base := 0, order := h.order, typ := h.firstIfdType, idx := 0 } h.firstIfd cnt x → W x)
     (hres : decodeTiff tb F buffered h = .ok (r', e)) : Coh F r' ∧ Exact tb { imageType := h.imageType } F r' :=
-  decodeTiff_nested tb F buffered h cnt r' e W hsmall w hroot hrootW hres
+  let hn := decodeTiff_nested tb F buffered h cnt r' e W hsmall w hroot hrootW hres
+  ⟨hn.1, hn.2.1⟩
 
 /-! non-vacuity: a 70-byte TIFF — IFD0 {Make "Canon" at 38, Exif pointer to 44}, Exif directory at 44 {LensModel "RF 50mm"
 at 62} — meets `World` and `DirOK`, and the model run on it makes exactly the two reads, in file order -/
@@ -402,7 +403,7 @@ theorem C03_streaming_equals_random_access (tb : Tables) (F : Bytes) (buffered :
     (hrootW : ∀ x, IsEntry F { off := 0, base := 0, order := h.order, typ := h.firstIfdType, idx := 0 } h.firstIfd cnt x → W x)
     (hres : decodeTiff tb F buffered h = .ok (r', e)) :
     idealRun tb F { imageType := h.imageType } r'.parsed = .ok r'.ex :=
-  (decodeTiff_nested tb F buffered h cnt r' e W hsmall w hroot hrootW hres).2.ref
+  (decodeTiff_nested tb F buffered h cnt r' e W hsmall w hroot hrootW hres).2.1.ref
 
 /-- the streaming parser of one tag is the pure function of its one read (for every reader state) -/
 theorem C03_parser_is_function_of_its_read (tb : Tables) (r : R) (t : Tag) :
@@ -432,7 +433,7 @@ theorem C03_software_end_to_end (tb : Tables) (F : Bytes) (buffered : Bool) (h :
     (pre post : List Tag) (a : Tag) (hsplit : r'.parsed = pre ++ a :: post) (h0 : a.ifd = ifd0) (hid : a.id = 0x0131)
     (hemb : a.isEmbedded = false) (hasc : isASCII a = true) (hpost : ∀ t ∈ post, ¬(t.ifd = ifd0 ∧ t.id = 0x0131)) :
     r'.ex.software = trimNUL (slice F a) :=
-  software_exact (decodeTiff_nested tb F buffered h cnt r' e W hsmall w hroot hrootW hres).2 pre post a hsplit h0 hid hemb hasc hpost
+  software_exact (decodeTiff_nested tb F buffered h cnt r' e W hsmall w hroot hrootW hres).2.1 pre post a hsplit h0 hid hemb hasc hpost
 
 /-- **A field, end to end (Exif directory): LensModel** (ExifIFD, 0xa434), reached through the pointer in IFD0 -/
 theorem C03_lensModel_end_to_end (tb : Tables) (F : Bytes) (buffered : Bool) (h : Hdr) (cnt : Nat) (r' : R) (e : Option ErrKind)
@@ -445,7 +446,7 @@ theorem C03_lensModel_end_to_end (tb : Tables) (F : Bytes) (buffered : Bool) (h 
     (pre post : List Tag) (a : Tag) (hsplit : r'.parsed = pre ++ a :: post) (h0 : a.ifd = exifIFD) (hid : a.id = 0xa434)
     (hemb : a.isEmbedded = false) (hasc : isASCII a = true) (hpost : ∀ t ∈ post, ¬(t.ifd = exifIFD ∧ t.id = 0xa434)) :
     r'.ex.lensModel = trimNUL (slice F a) :=
-  lensModel_exact (decodeTiff_nested tb F buffered h cnt r' e W hsmall w hroot hrootW hres).2 pre post a hsplit h0 hid hemb hasc hpost
+  lensModel_exact (decodeTiff_nested tb F buffered h cnt r' e W hsmall w hroot hrootW hres).2.1 pre post a hsplit h0 hid hemb hasc hpost
 
 /-- on the sample file, through the theorem (not by running the model): LensModel is "RF 50mm" -/
 example (r' : R) (e : Option ErrKind)
@@ -464,5 +465,54 @@ example (r' : R) (e : Option ErrKind)
     hres [nM] [] nL (by rw [hp]; rfl) rfl rfl (by decide) (by decide) (by intro t ht; cases ht)
   rw [this]
   decide +kernel
+
+theorem last_occurrence {α} (a : α) : ∀ l : List α, a ∈ l → ∃ pre post, l = pre ++ a :: post ∧ a ∉ post := by
+  intro l
+  induction l with
+  | nil => intro h; cases h
+  | cons x l ih =>
+    intro h
+    by_cases hl : a ∈ l
+    · obtain ⟨pre, post, e, hn⟩ := ih hl
+      exact ⟨x :: pre, post, by rw [e]; rfl, hn⟩
+    · rw [List.mem_cons] at h
+      rcases h with rfl | h
+      · exact ⟨[], l, rfl, hl⟩
+      · exact absurd h hl
+
+/-- **Software, end to end, stated on the file alone.**  Under the layout hypotheses of `C03_nested_tiff_exact`: if a is
+an out-of-line ASCII entry of IFD0 with id 0x0131 and no other entry of IFD0, of the Exif or of the GPS directory carries
+that (directory, id) pair, then DecodeTiff returns Software = F[a.off, a.off + a.size) minus trailing NUL / blank padding.
+(The ghost parse record is used in the proof only: every out-of-line value tag of the layout is parsed, and nothing is
+parsed that is not an entry of one of the three directories.) -/
+theorem C03_software_unique (tb : Tables) (F : Bytes) (buffered : Bool) (h : Hdr) (cnt : Nat) (r' : R) (e : Option ErrKind)
+    (W : Tag → Prop) (hsmall : F.length < 2 ^ 32)
+    (w : World F (4 * 1024 * 1024) (if buffered then bufioSize else scratchSize) W)
+    (hroot : DirOK F { off := 0, base := 0, order := h.order, typ := h.firstIfdType, idx := 0 } h.firstIfd cnt (4 * 1024 * 1024)
+      (if buffered then bufioSize else scratchSize) (extent F))
+    (hrootW : ∀ x, IsEntry F { off := 0, base := 0, order := h.order, typ := h.firstIfdType, idx := 0 } h.firstIfd cnt x → W x)
+    (hres : decodeTiff tb F buffered h = .ok (r', e))
+    (a : Tag) (ha : IsEntry F { off := 0, base := 0, order := h.order, typ := h.firstIfdType, idx := 0 } h.firstIfd cnt a)
+    (h0 : a.ifd = ifd0) (hid : a.id = 0x0131) (hasc : isASCII a = true)
+    (huniq : ∀ x, (AnyEntry F { off := 0, base := 0, order := h.order, typ := h.firstIfdType, idx := 0 } h.firstIfd cnt x ∨
+        ∃ p, IsEntry F { off := 0, base := 0, order := h.order, typ := h.firstIfdType, idx := 0 } h.firstIfd cnt p ∧ IsPtr p ∧
+          AnyEntry F p.childIfd p.off (ptrCount F p) x) → x.ifd = ifd0 → x.id = 0x0131 → x = a) :
+    r'.ex.software = trimNUL (slice F a) := by
+  obtain ⟨_, hex, hcomp⟩ := decodeTiff_nested tb F buffered h cnt r' e W hsmall w hroot hrootW hres
+  have hemb : a.isEmbedded = false := ha.choose_spec.2.2
+  have htyp : a.typ ≠ tIfd := by
+    intro ht
+    unfold isASCII at hasc
+    rw [ht] at hasc
+    revert hasc; decide
+  have hmem : a ∈ r'.parsed := hcomp.vals a ha htyp
+  obtain ⟨pre, post, hsplit, hnot⟩ := last_occurrence a r'.parsed hmem
+  apply software_exact hex pre post a hsplit h0 hid hemb hasc
+  intro t ht hk
+  have htp : t ∈ r'.parsed := by rw [hsplit]; simp [ht]
+  rcases hcomp.prov t htp with hb | hb | hb
+  · cases hb
+  · exact hnot (by rw [← huniq t (Or.inl hb) hk.1 hk.2]; exact ht)
+  · exact hnot (by rw [← huniq t (Or.inr hb) hk.1 hk.2]; exact ht)
 
 end Imeta.Exif
